@@ -18,6 +18,7 @@ CHILD = [
     '{x: y for x, y in a}', '(x for x in a)', '[x async for x in a]', 'await a', '(yield)', '(yield a)', '(yield from a)', '(x := a)',
     'f"t"', 'f"{a}"', 'f"{a!r:>{b}}"', 'f"{a=}"', 'f"{a}{{}}{b:x}"', 'f"{f\'{a}\'}"', '-1', '- -1', '-1.5', '2 ** -1', '(-1) ** 2',
     '18446744073709551615', '1e999', '1e-07', '"a\'b"', '"\\n\\\\"', '"""a\nb"""', 'b"\\x00\\xff"', '"\\x00"', '"é\U0001F600"', 'a.b.c(d)[e]',
+    'a if b"y" else c', 'a or b"y"', 'not b"y"', 'a in b"y"', 'a is not b"y"', 'a or f"{b}"', 'not f"{a}"', 'a if f"{b}" else c', 'lambda: b"y"', 'a and "s"',
     '[a for b in c for d in e if f if g]', 'a if b else c if d else e', '(a if b else c) if d else e', 'lambda: (yield)', '(a, *b)',
     '1 .real', '1.0.real', 'a[b](c).d', '(a := b, c)', 'f(a := b)', '{*a}', '{**a}', 'a <= b', 'a > b', 'a >= b', 'a != b', 'a is b',
 ]
@@ -28,6 +29,8 @@ INTERESTING = [CHILD.index(t) for t in [
     'a', '1', '(a, b)', '(a,)', '[a, b]', 'a + b', 'a ** b', '-a', 'not a', 'a and b', 'a or b', 'a < b', 'a if b else c', 'lambda: a', 'f(a)',
     'a.b', 'a[b]', '[*a, b]', '(x for x in a)', 'await a', '(yield)', '(yield a)', '(yield from a)', '(x := a)', 'f"{a}"', '-1', '1.5', '"s"',
     '(a, *b)', 'a < b <= c', '2 ** -1', 'b"\\x00\\xff"']]
+# position 31 alternates (by the statement / slot index) between the escaped bytes literal and keyword-followed-by-bytes
+INTERESTING_ALT = CHILD.index('a if b"y" else c')
 
 # --- expression slots --------------------------------------------------------------------------------------------
 SLOT = [
@@ -90,30 +93,37 @@ STMT = [_SPECIAL.get(s, s) for s in STMT]
 N_STMT = len(STMT)
 
 
-class _Sub(ast.NodeTransformer):
-    def __init__(self, mapping):
-        self.mapping = mapping
+import re as _re
 
-    def visit_Name(self, node):
-        if node.id in self.mapping and isinstance(node.ctx, ast.Load):
-            return copy.deepcopy(self.mapping[node.id])
-        return node
+_MARK = _re.compile(r'EXPR2|EXPR')
 
 
-def _parse_expr(text):
-    return ast.parse(text, mode='eval').body
+def _subst_text(template, child, child2):
+    """Source text of the template with the markers replaced by the parenthesised child text.  Parentheses never change
+    the tree of an expression (they do not appear in the AST) except that they make `with ((a, b)):` a single tuple
+    item - which is exactly the tree a user can write."""
+    def rep(m):
+        t = child2 if m.group(0) == 'EXPR2' else child
+        # a starred marker position (*EXPR) and f-string fields take the parenthesised text as well
+        return '(' + t + ')' if not (t.startswith('(') and t.endswith(')') and _balanced(t)) else t
+    return _MARK.sub(rep, template)
 
 
-_CHILD_T = [_parse_expr(t) for t in CHILD]
-_SLOT_T = [_parse_expr(t) for t in SLOT]
-_STMT_T = [ast.parse(t) for t in STMT]
+def _balanced(t):
+    depth = 0
+    for i, ch in enumerate(t):
+        if ch == '(':
+            depth += 1
+        elif ch == ')':
+            depth -= 1
+            if depth == 0 and i != len(t) - 1:
+                return False
+    return depth == 0
 
 
 def _needs(node):
     has_await = has_yield_from = has_yield = has_async_comp = False
     for n in ast.walk(node):
-        if isinstance(n, ast.Lambda):
-            pass
         if isinstance(n, ast.Await):
             has_await = True
         if isinstance(n, ast.YieldFrom):
@@ -126,52 +136,36 @@ def _needs(node):
 
 
 def expr_tree(p, c, g=None):
-    """Module with `x = <SLOT[p] with CHILD[c] (with CHILD[g] inside)>` in a suitable function, or None if not producible."""
-    child = copy.deepcopy(_CHILD_T[c])
+    """(tree, text) for `x = <SLOT[p] with CHILD[c] (with CHILD[g] in place of its first `a`)>` inside a function, built as
+    source text and parsed by CPython (the parser is the producibility witness); None if the text does not parse."""
+    child = CHILD[c]
     if g is not None:
-        # the grand-child replaces the first Name `a` of the child
-        done = [False]
-
-        class First(ast.NodeTransformer):
-            def visit_Name(self, node):
-                if not done[0] and node.id == 'a' and isinstance(node.ctx, ast.Load):
-                    done[0] = True
-                    return copy.deepcopy(_CHILD_T[g])
-                return node
-        child = First().visit(child)
-        if not done[0]:
+        m = _re.search(r'(?<![A-Za-z0-9_"\'.])a(?![A-Za-z0-9_"\'])', child)
+        if m is None:
             return None
-    e = _Sub({'EXPR': child, 'EXPR2': ast.Name(id='q', ctx=ast.Load())}).visit(copy.deepcopy(_SLOT_T[p]))
+        child = child[:m.start()] + '(' + CHILD[g] + ')' + child[m.end():]
+    expr = _subst_text(SLOT[p], child, 'q')
+    try:
+        e = ast.parse(expr, mode='eval').body
+    except (SyntaxError, ValueError):
+        return None
     need_async, has_yf, has_y = _needs(e)
     if need_async and has_yf:
         return None
-    noargs = ast.arguments(posonlyargs=[], args=[], vararg=None, kwonlyargs=[], kw_defaults=[], kwarg=None, defaults=[])
-    cls = ast.AsyncFunctionDef if need_async else ast.FunctionDef
-    fn = cls(name='f', args=noargs, body=[ast.Assign(targets=[ast.Name(id='x', ctx=ast.Store())], value=e)], decorator_list=[], returns=None)
-    if 'type_params' in cls._fields:
-        fn.type_params = []
-    m = ast.Module(body=[fn], type_ignores=[])
-    return admitted(m)
+    text = ('async def f():\n    x = ' if need_async else 'def f():\n    x = ') + expr + '\n'
+    return admitted(text)
 
 
 def stmt_tree(s, c, c2=0):
-    child = copy.deepcopy(_CHILD_T[c])
-    child2 = copy.deepcopy(_CHILD_T[c2])
-    m = _Sub({'EXPR': child, 'EXPR2': child2}).visit(copy.deepcopy(_STMT_T[s]))
-    return admitted(m)
+    return admitted(_subst_text(STMT[s], CHILD[c], CHILD[c2]) + '\n')
 
 
-def admitted(m):
-    """The tree itself if CPython's own unparser/parser reproduce it exactly (and the compiler accepts it), else None."""
-    ast.fix_missing_locations(m)
+def admitted(text):
+    """(tree, text) if CPython parses the text, else None."""
     try:
-        text = ast.unparse(m)
-        back = ast.parse(text)
-    except Exception:  # noqa
+        return ast.parse(text), text
+    except (SyntaxError, ValueError):
         return None
-    if ast.dump(back) != ast.dump(m):
-        return None
-    return back, text
 
 
 def compiles(text):
